@@ -429,6 +429,10 @@ fn fam_stack() -> Result<(), String> {
     let before = v.downcast_ref::<u64>().unwrap().as_slice().to_vec();
     if catch_unwind(AssertUnwindSafe(|| v.push(AnyValueWrapper::new(9u64)))).is_ok() { return Err("push beyond a fixed capacity returned".into()); }
     if v.downcast_ref::<u64>().unwrap().as_slice() != &before[..] { return Err("refused push changed the contents".into()); }
+    for index in 0..=4usize {
+        if catch_unwind(AssertUnwindSafe(|| v.insert(index, AnyValueWrapper::new(9u64)))).is_ok() { return Err("insert beyond a fixed capacity returned".into()); }
+        if v.downcast_ref::<u64>().unwrap().as_slice() != &before[..] { return Err(format!("insert({}) beyond a fixed capacity panicked but left the contents {:?} (before: {:?})", index, v.downcast_ref::<u64>().unwrap().as_slice(), before)); }
+    }
     let e: AnyVec<dyn Cloneable, Stack<64>> = AnyVec::new::<u64>();
     if catch_unwind(AssertUnwindSafe(|| { let _ = e.clone(); })).is_err() { return Err("clone of an empty Stack vector panicked".into()); }
     // storage alignment for over-aligned element types, the vector placed at every admissible offset of an aligned arena
